@@ -4,6 +4,7 @@ package sym
 // (interpreted) filesystem values, as the real ones are.
 
 import (
+	"strings"
 	"go/token"
 	"go/types"
 	"path"
@@ -120,23 +121,59 @@ func inFsGlob(fr *frame, a []value) value {
 	if _, err := path.Match(pattern, ""); err != nil {
 		return tuple{[]value(nil), i.globalError("path.ErrBadPattern")}
 	}
+	out, bad := i.fsGlob(fr, fsys, pattern)
+	if bad {
+		return tuple{[]value(nil), i.globalError("path.ErrBadPattern")}
+	}
+	var vals []value
+	for _, m := range out {
+		vals = append(vals, m)
+	}
+	return tuple{vals, iface{}}
+}
+
+// fsGlob follows io/fs.Glob: a pattern without meta characters matches itself
+// when it exists; otherwise the directory part is expanded first (it may
+// contain meta characters itself) and the last element is matched against the
+// sorted listing of every matching directory.
+func (i *interpreter) fsGlob(fr *frame, fsys iface, pattern string) (matches []string, bad bool) {
+	hasMeta := func(p string) bool { return strings.ContainsAny(p, `*?[\`) }
+	if !hasMeta(pattern) {
+		st := inFsStat(fr, []value{fsys, pattern}).(tuple)
+		if st[1].(iface).t != nil {
+			return nil, false
+		}
+		return []string{pattern}, false
+	}
 	dir, file := path.Split(pattern)
 	dir = cleanGlobDir(dir)
-	res := inFsReadDir(fr, []value{fsys, dir}).(tuple)
-	var out []value
-	if res[1].(iface).t == nil && res[0] != nil {
+	globDir := func(d string) {
+		res := inFsReadDir(fr, []value{fsys, d}).(tuple)
+		if res[1].(iface).t != nil || res[0] == nil {
+			return
+		}
 		for _, e := range res[0].([]value) {
 			n := i.concStr(i.callMethod(fr, e.(iface), "Name"))
 			if ok, _ := path.Match(file, n); ok {
-				if dir == "." {
-					out = append(out, n)
-				} else {
-					out = append(out, dir+"/"+n)
-				}
+				matches = append(matches, path.Join(d, n))
 			}
 		}
 	}
-	return tuple{out, iface{}}
+	if !hasMeta(dir) {
+		globDir(dir)
+		return matches, false
+	}
+	if dir == pattern {
+		return nil, true
+	}
+	dirs, bad := i.fsGlob(fr, fsys, dir)
+	if bad {
+		return nil, true
+	}
+	for _, d := range dirs {
+		globDir(d)
+	}
+	return matches, false
 }
 
 func cleanGlobDir(dir string) string {
